@@ -28,6 +28,9 @@ class Body:
         m = re.sub(r'(::\{closure#\d+\})+$', '', base)
         self.fn_name = m.rsplit('::', 1)[-1]
         self.file = raw['span']['file']
+        self.inlined = []
+        self.fused = []
+        self.yields = False
 
     # stable key without line numbers
     @property
@@ -139,6 +142,8 @@ class Facts:
         self.kinds = set(c['kind'] for c in self.crates)
         self.helpers = {}
         self.normalised = []
+        self._loopforms = {}
+        self._nestforms = {}
         if normalise:
             from .inline import normalise as _normalise
             _normalise(self, known_fns())
@@ -194,6 +199,22 @@ class Facts:
         if len(r) != 1:
             return None
         return r[0]
+
+    def loop_form(self, body):
+        """The body with Iterator consumers (any/all/fold/sum/for_each) rewritten as explicit loops (pk/loopform.py)."""
+        k = getattr(body, 'key_in_facts', body.path)
+        if k not in self._loopforms:
+            from .loopform import loop_form
+            self._loopforms[k] = loop_form(self, body)
+        return self._loopforms[k]
+
+    def nest_form(self, body, yields=True):
+        """loop_form + adaptor fusion + returned iterator as a yield loop (pk/loopform.py)."""
+        k = (getattr(body, 'key_in_facts', body.path), yields)
+        if k not in self._nestforms:
+            from .loopform import nest_form
+            self._nestforms[k] = nest_form(self, body, yields=yields)
+        return self._nestforms[k]
 
     def closures_of(self, body):
         pres = [body.path + '::{closure#'] + [h + '::{closure#' for h in getattr(body, 'inlined', [])]
